@@ -39,16 +39,28 @@ PHASES = {
 }
 
 
-class Watchdog(Exception):
-    pass
+class Watchdog(BaseException):
+    """Raised by the SIGALRM handler.  A BaseException so that neither the library nor the traced runner can mistake
+    it for the run's own failure."""
 
 
 def _alarm(signum, frame):
     raise Watchdog()
 
 
-def plain_run(cfg, workers, timeout):
-    """Run with the library's own pool.  -> (trace, new child processes at the moment of return, timed_out)"""
+def plain_run(cfg, workers, timeout, t=None):
+    """Run with the library's own pool.  -> (trace, new child processes at the moment of return, timed_out).
+    A watchdog expiry is inconclusive once: the call is repeated, and only a second expiry is reported as timed_out."""
+    tr, leftover, timed_out = _plain_run_once(cfg, workers, timeout)
+    if timed_out:
+        _reap(leftover or [None])
+        if t is not None:
+            t.cls("watchdog_expired_once_then_retried")
+        tr, leftover, timed_out = _plain_run_once(cfg, workers, timeout)
+    return tr, leftover, timed_out
+
+
+def _plain_run_once(cfg, workers, timeout):
     before = set(p.pid for p in multiprocessing.active_children())
     env_saved = os.environ.get("CUPCAKE_ENABLE_MULTIPROCESSING")
     run_cfg = dict(cfg)
@@ -92,6 +104,8 @@ def _reap(procs):
             except Exception:
                 pass
     for p in procs:
+        if p is None:
+            continue
         try:
             p.terminate()
             p.join(2)
@@ -200,7 +214,7 @@ def execute(case, t):
     t.cls(f"kind_{kind}")
     t.cls(f"workers_{workers}")
     if kind == "no_donor":
-        tr, leftover, timed_out = plain_run(cfg, workers, timeout)
+        tr, leftover, timed_out = plain_run(cfg, workers, timeout, t)
         n_left = len(leftover)
         _reap(leftover)
         if timed_out:
@@ -227,7 +241,7 @@ def execute(case, t):
         # if another task of the run has bitwise the same covariance the first of them fails: still a single injected fault
         with faults.Installed(faults.failing_admm):
             fired = faults.arm_fault(target, f["exc"], message)
-            tr, leftover, timed_out = plain_run(cfg, workers, timeout)
+            tr, leftover, timed_out = plain_run(cfg, workers, timeout, t)
             n_fired = fired.value
         what = f"a failure of the optimisation task of cluster {k} in round {r} ({f['exc']}, {workers} worker(s))"
     else:
@@ -253,7 +267,7 @@ def execute(case, t):
             return real(*a, **k)
         setattr(mod, PHASES[ph][1], failing)
         try:
-            tr, leftover, timed_out = plain_run(cfg, workers, timeout)
+            tr, leftover, timed_out = plain_run(cfg, workers, timeout, t)
         finally:
             setattr(mod, PHASES[ph][1], real)
         n_fired = calls["fired"]
@@ -261,8 +275,7 @@ def execute(case, t):
     n_left = len(leftover)
     _reap(leftover)
     if timed_out:
-        # inconclusive once: retry is done by re-executing; report only a second expiry
-        raise Violation(f"the call did not return within {timeout:.0f} s after {what}")
+        raise Violation(f"the call did not return within {timeout:.0f} s, twice in a row, after {what}")
     if n_fired == 0:
         if tr.ok:
             t.discard("the targeted task/phase was never reached (fault did not fire)")
